@@ -2,7 +2,7 @@
     [exact <lemma>].  Equality of states is Leibniz equality, so every subsequent input sequence
     is treated identically by the reset scanner and a new one. *)
 From Verif Require Import Base.Prelude Model.ShortMsg Model.PerChannel Model.CC14 Model.Nrpn
-  Model.Polling Proofs.PollingProofs Proofs.ScannerProofs.
+  Model.Polling Proofs.PollingProofs Proofs.ScannerProofs Proofs.RepeatStable.
 
 Theorem C17_cc14_reset_is_new : forall s, length s = 16%nat -> cc14_reset s = cc14_new_scanner.
 Proof. exact cc14_reset_is_new. Qed.
@@ -24,7 +24,21 @@ Theorem C17_polling_reset_after_any_history : forall timeout h,
     poll_reset s' = poll_new_scanner timeout.
 Proof. exact poll_reset_after_any_history. Qed.
 
+(** any number of resets in a row is one reset (the correspondence records carry a repeat count
+    for reset operations, up to 65 537 and 2^32 in the thorough tier; the model resets once) *)
+Theorem C17_resets_in_a_row_are_one_reset : forall n,
+  (forall s, iter_reset cc14_reset (S n) s = cc14_reset s) /\
+  (forall s, iter_reset pn_reset (S n) s = pn_reset s) /\
+  (forall s, iter_reset poll_reset (S n) s = poll_reset s).
+Proof.
+  intros n. split; [|split]; intros s.
+  - exact (cc14_resets_are_one_reset n s).
+  - exact (pn_resets_are_one_reset n s).
+  - exact (poll_resets_are_one_reset n s).
+Qed.
+
 Print Assumptions C17_cc14_reset_is_new.
+Print Assumptions C17_resets_in_a_row_are_one_reset.
 Print Assumptions C17_nrpn_reset_is_new.
 Print Assumptions C17_polling_reset_is_new.
 Print Assumptions C17_polling_reset_after_any_history.
